@@ -238,6 +238,10 @@ func main() {
 	switch os.Args[1] {
 	case "repo":
 		cmdRepo(os.Args[2:])
+	case "pool":
+		cmdPool(os.Args[2:])
+	case "disp":
+		cmdDisp(os.Args[2:])
 	case "cron":
 		cmdCron(os.Args[2:])
 	case "mut":
